@@ -1,6 +1,6 @@
 (* Theorems about task factories (C09). *)
 From Coq Require Import List Bool Arith Lia.
-From Asphalt Require Import Conc.Factory.
+From Asphalt Require Import Conc.Factory Gen.Gen_service.
 Import ListNotations.
 
 Lemma upd_length {A} (l : list A) i x : length (upd l i x) = length l.
@@ -253,3 +253,11 @@ Proof.
   all: pose proof (close_no_spawn s2 k p) as C; destruct (maybe_close s2) as [s3 o3]; simpl in *.
   all: intros [X|Hin]; [inversion X; reflexivity|exfalso; apply in_app_or in Hin; tauto].
 Qed.
+
+(* ---------- the shape of run_background_task (Gen/Gen_service.v) ---------- *)
+Theorem background_task_source_shape :
+  bg_scope_encloses_context = true /\ bg_context_parent_is_given = true /\
+  bg_started_before_target_without_status = true /\ bg_handler_for_exceptions_only = true /\
+  bg_handler_consulted_iff_given = true /\ bg_swallowed_iff_truthy = true /\
+  bg_finished_in_finally_after_context = true.
+Proof. repeat split. Qed.
